@@ -82,4 +82,52 @@ theorem reserIn_fixed (ver : Nat) (b out : Bytes) (h : reserIn ver b = .ok out) 
   simp only [List.isEmpty_nil, Bool.not_true, Bool.false_eq_true, if_false, hall', if_true,
     keptIn_sorted_kept, sortRecs_idem]
 
+-- ------------------------------------------------------------------ output maps
+theorem mem_sorted_keptOut (recs : List Rec) (r : Rec) :
+    r ∈ sortRecs outRank (keptOut recs) ↔ r ∈ recs ∧ droppedOut r = false := by
+  rw [(sortRecs_perm outRank (keptOut recs)).mem_iff]
+  simp [keptOut, List.mem_filter]
+
+theorem reserOut_ok (ver : Nat) (b out : Bytes) (h : reserOut ver b = .ok out) :
+    ∃ recs, parseMap b = .ok (recs, []) ∧ recs.all (recordOkOut ver) = true ∧
+      out = serMap (sortRecs outRank (keptOut recs)) := by
+  unfold reserOut at h
+  split at h
+  · cases h
+  · rename_i recs rest hp
+    split at h
+    · cases h
+    · rename_i hr
+      split at h
+      · rename_i hall
+        cases h
+        have : rest = [] := by simpa using hr
+        subst this
+        exact ⟨recs, hp, hall, rfl⟩
+      · cases h
+
+theorem parseMap_sorted_keptOut (recs : List Rec) (hv : ValidRecs recs) :
+    parseMap (serMap (sortRecs outRank (keptOut recs))) = .ok (sortRecs outRank (keptOut recs), []) := by
+  have hv' : ValidRecs (sortRecs outRank (keptOut recs)) :=
+    validRecs_perm (sortRecs_perm outRank _).symm (validRecs_sublist List.filter_sublist hv)
+  have := parseMap_serMap _ [] hv'
+  simpa using this
+
+theorem reserOut_fixed (ver : Nat) (b out : Bytes) (h : reserOut ver b = .ok out) :
+    reserOut ver out = .ok out := by
+  obtain ⟨recs, hp, hall, rfl⟩ := reserOut_ok ver b out h
+  have ⟨hv, _⟩ := serMap_parseMap _ _ _ hp
+  unfold reserOut
+  rw [parseMap_sorted_keptOut recs hv]
+  have hall' : (sortRecs outRank (keptOut recs)).all (recordOkOut ver) = true := by
+    rw [List.all_eq_true] at hall ⊢
+    intro r hr
+    exact hall r ((mem_sorted_keptOut recs r).1 hr).1
+  have hk : keptOut (sortRecs outRank (keptOut recs)) = sortRecs outRank (keptOut recs) := by
+    apply List.filter_eq_self.2
+    intro r hr
+    have := ((mem_sorted_keptOut recs r).1 hr).2
+    simp [this]
+  simp only [List.isEmpty_nil, Bool.not_true, Bool.false_eq_true, if_false, hall', if_true, hk, sortRecs_idem]
+
 end Btc.Psbt
